@@ -35,12 +35,13 @@ Section Facts.
   Qed.
 
   (* consecutive sends: the wire is the concatenation of the acknowledged encodings,
-     followed (after a failed send) by a prefix of the failed one *)
+     followed (after a failed send) by a prefix of the failed one; every send after a failed one fails and
+     writes nothing *)
   Theorem sends_wire bs : forall oracle wire oks,
     sends true bs oracle = (wire, oks) ->
     exists acked partial rest,
       wire = concat acked ++ partial /\ bs = acked ++ rest /\
-      oks = repeat true (length acked) ++ (match rest with [] => [] | _ => [false] end) /\
+      oks = repeat true (length acked) ++ repeat false (length rest) /\
       match rest with
       | [] => partial = []
       | b :: _ => exists tail, b = partial ++ tail
@@ -57,7 +58,8 @@ Section Facts.
         exists (b :: acked), partial, rest. cbn. rewrite Hw, <- app_assoc, Hoks. repeat split; auto.
         rewrite Hbs. reflexivity.
       + injection H as <- <-. exists [], e, (b :: bs). cbn. repeat split; auto.
-        exists tail. exact Hb.
+        * f_equal. clear. induction bs as [|x r IH]; cbn; [reflexivity|f_equal; exact IH].
+        * exists tail. exact Hb.
   Qed.
 
   (* as found: a short write followed by a temporary timeout duplicates bytes and the Send still succeeds *)
